@@ -11,6 +11,16 @@
 //!   `served` = the responder emitted an `UploadPack` event for that requester and repository, i.e.
 //!   `upload_pack` ran and wrote to the stream. Output `served` | `refused`.
 //!
+//! * `v <init p|e> <steps> <requester e|b>` — a HISTORY through the real worker, three real nodes: the serving node
+//!   (alice) and a second delegate (bob) own a seeded repository that starts `p`ublic or private with the
+//!   requester `e`ve on the allow list; every char of `steps` is a visibility change (`n` private/empty allow
+//!   list, `e` private/[eve], `p` public) proposed by alice, fetched and accepted by bob on HIS node (so that
+//!   the deciding vote reaches alice through a fetch from bob: for the first step via a newly created identity
+//!   ref, for later steps via an updated one); then eve (`e`) or bob (`b`) attempts a fetch from alice.
+//!   The oracle judges `served` against the CANONICAL identity document in alice's storage, computed by the
+//!   harness with `Identity::load` (not through `refs/rad/id`, which is what the worker reads):
+//!   class `served-against-current-identity`.
+//!
 //! Oracle (the property statement on what the real code did): served or fetched although the repository
 //! is not seeded or not visible to the requester ⇒ `served-unauthorized`; repository present at the
 //! requester after a refusal ⇒ `data-leaked`; `git_request` panicking ⇒ `git-request-panic`.
@@ -39,6 +49,8 @@ struct World {
     alice: NodeHandle<MockSigner>,
     bob: NodeHandle<MockSigner>,
     other: radicle::node::NodeId,
+    /// third node, spawned for the first history scenario
+    eve: Option<NodeHandle<MockSigner>>,
     counter: usize,
 }
 
@@ -55,15 +67,11 @@ fn world_init() -> World {
     let bob = bob.spawn();
     alice.connect(&bob);
     transport::local::register(alice.storage.clone());
-    World { _tmp: tmp, alice, bob, other, counter: 0 }
+    World { _tmp: tmp, alice, bob, other, eve: None, counter: 0 }
 }
 
 /// Create a fresh repository in the responder's storage.
 fn make_repo(w: &mut World, private: bool, allow_r: bool, allow_o: bool, delegate: bool) -> Result<RepoId, String> {
-    w.counter += 1;
-    let name = format!("repo{}", w.counter);
-    let wd = w._tmp.path().join(format!("wd{}", w.counter));
-    let (repo, _) = fixtures::repository(&wd);
     let mut allow = vec![];
     if allow_r {
         allow.push(w.bob.id.into());
@@ -72,6 +80,15 @@ fn make_repo(w: &mut World, private: bool, allow_r: bool, allow_o: bool, delegat
         allow.push(w.other.into());
     }
     let vis = if private { Visibility::private(allow) } else { Visibility::Public };
+    make_repo_with(w, vis, delegate)
+}
+
+/// Create a fresh repository in the responder's storage, with the given visibility; `delegate`: bob is a delegate too.
+fn make_repo_with(w: &mut World, vis: Visibility, delegate: bool) -> Result<RepoId, String> {
+    w.counter += 1;
+    let name = format!("repo{}", w.counter);
+    let wd = w._tmp.path().join(format!("wd{}", w.counter));
+    let (repo, _) = fixtures::repository(&wd);
     let branch = git::RefString::try_from("master").map_err(|e| e.to_string())?;
     let (rid, _, _) = radicle::rad::init(
         &repo,
@@ -261,11 +278,210 @@ fn run_worker(toks: &[&str]) -> Outcome {
     Outcome::new(format!("inconclusive:{}", last.replace(' ', "_"))).tag("w:inconclusive").trivial()
 }
 
+// ---- histories -------------------------------------------------------------------------------------
+
+fn vis_of(c: char, eve: radicle::node::NodeId) -> Option<Visibility> {
+    match c {
+        'p' => Some(Visibility::Public),
+        'n' => Some(Visibility::private([])),
+        'e' => Some(Visibility::private([eve.into()])),
+        _ => None,
+    }
+}
+
+/// A fetch that must succeed for the scenario to be set up (retried: fetch timeouts are short and the
+/// machine may be loaded).
+fn fetch_ok(node: &mut NodeHandle<MockSigner>, rid: RepoId, from: radicle::node::NodeId) -> Result<(), String> {
+    let mut last = String::new();
+    for _ in 0..6 {
+        match node.handle.fetch(rid, from, Duration::from_secs(60)) {
+            Ok(FetchResult::Success { .. }) => return Ok(()),
+            Ok(FetchResult::Failed { reason }) => last = reason,
+            Err(e) => last = e.to_string(),
+        }
+        std::thread::sleep(Duration::from_secs(1));
+    }
+    Err(format!("set-up fetch failed: {last}"))
+}
+
+struct HistoryResult {
+    served: bool,
+    fetched: bool,
+    leaked: bool,
+    /// the requester may see the repository according to the canonical identity document in alice's storage
+    visible_canonical: bool,
+    /// ... and according to the document the worker reads (`refs/rad/id`)
+    visible_cached: bool,
+}
+
+fn history_attempt(w: &mut World, init: char, steps: &[char], requester_is_eve: bool) -> Result<HistoryResult, String> {
+    ensure_connected(w);
+    if w.eve.is_none() {
+        let eve = Node::init(w._tmp.path(), Config::test(Alias::new("eve")));
+        let mut eve = eve.spawn();
+        eve.connect(&w.alice);
+        w.eve = Some(eve);
+    }
+    let eve_id = w.eve.as_ref().unwrap().id;
+    let (alice_id, bob_id) = (w.alice.id, w.bob.id);
+    let vis0 = vis_of(init, eve_id).ok_or("bad init")?;
+    let rid = make_repo_with(w, vis0, true)?;
+    w.alice.handle.seed(rid, Scope::All).map_err(|e| format!("seed: {e}"))?;
+    w.bob.handle.seed(rid, Scope::All).map_err(|e| format!("seed: {e}"))?;
+    fetch_ok(&mut w.bob, rid, alice_id)?;
+    let mut expected = vis_of(init, eve_id).unwrap();
+    for c in steps {
+        let vis = vis_of(*c, eve_id).ok_or("bad step")?;
+        // alice proposes; with two delegates this needs bob's vote
+        let rev = {
+            let repo = w.alice.storage.repository(rid).map_err(|e| e.to_string())?;
+            let mut identity = Identity::load_mut(&repo).map_err(|e| e.to_string())?;
+            let mut doc = identity.doc().clone().edit();
+            doc.visibility = vis.clone();
+            let verified = doc.verified().map_err(|e| e.to_string())?;
+            let rev = identity.update("Change visibility", "", &verified, &w.alice.signer).map_err(|e| format!("propose: {e}"))?;
+            if identity.revision(&rev).map(|r| r.is_accepted()).unwrap_or(true) {
+                return Err("proposal was accepted without the second delegate".into());
+            }
+            rev
+        };
+        fetch_ok(&mut w.bob, rid, alice_id)?;
+        // bob accepts on his own node
+        {
+            let repo = w.bob.storage.repository(rid).map_err(|e| e.to_string())?;
+            let mut identity = Identity::load_mut(&repo).map_err(|e| e.to_string())?;
+            identity.accept(&rev, &w.bob.signer).map_err(|e| format!("accept: {e}"))?;
+            identity.reload().map_err(|e| e.to_string())?;
+            if !identity.revision(&rev).map(|r| r.is_accepted()).unwrap_or(false) {
+                return Err("revision not accepted after the second vote".into());
+            }
+            repo.set_identity_head_to(rev.into()).map_err(|e| e.to_string())?;
+        }
+        // the deciding vote reaches alice through a fetch
+        fetch_ok(&mut w.alice, rid, bob_id)?;
+        expected = vis;
+    }
+    let requester = if requester_is_eve { eve_id } else { bob_id };
+    // the CURRENT identity in alice's storage, independently of refs/rad/id
+    let (visible_canonical, visible_cached) = {
+        let repo = w.alice.storage.repository(rid).map_err(|e| e.to_string())?;
+        let identity = Identity::load(&repo).map_err(|e| format!("canonical identity: {e}"))?;
+        let canonical = identity.doc();
+        if canonical.visibility() != &expected {
+            return Err("canonical identity in the responder's storage is not the one the history produces".into());
+        }
+        let cached = radicle::storage::ReadRepository::identity_doc(&repo).map_err(|e| e.to_string())?;
+        (canonical.is_visible_to(&requester.into()), cached.is_visible_to(&requester.into()))
+    };
+    let node = if requester_is_eve { w.eve.as_mut().unwrap() } else { &mut w.bob };
+    node.handle.seed(rid, Scope::All).map_err(|e| format!("requester seed: {e}"))?;
+    let had_repo = node.storage.repository(rid).is_ok();
+    let events = w.alice.handle.events();
+    let started = Instant::now();
+    let fetched = match node.handle.fetch(rid, alice_id, Duration::from_secs(60)) {
+        Ok(FetchResult::Success { .. }) => true,
+        Ok(FetchResult::Failed { reason }) => {
+            let r = reason.to_lowercase();
+            if r.contains("timed out") || r.contains("timeout") || r.contains("disconnected") {
+                return Err(format!("fetch failed for an unrelated reason: {reason}"));
+            }
+            false
+        }
+        Err(e) => return Err(format!("fetch command: {e}")),
+    };
+    if started.elapsed() > Duration::from_secs(45) {
+        return Err("fetch took suspiciously long".into());
+    }
+    let mut served = false;
+    let deadline = Instant::now() + Duration::from_millis(if fetched { 100 } else { 700 });
+    loop {
+        let left = deadline.saturating_duration_since(Instant::now());
+        match events.recv_timeout(left) {
+            Ok(Event::UploadPack(up)) => {
+                use radicle::node::events::UploadPack::*;
+                let (r, n) = match &up {
+                    Done { rid, remote, .. } | Write { rid, remote, .. } | Error { rid, remote, .. } | PackProgress { rid, remote, .. } => (*rid, *remote),
+                };
+                if r == rid && n == requester {
+                    served = true;
+                    break;
+                }
+            }
+            Ok(_) => {}
+            Err(_) => break,
+        }
+    }
+    let leaked = !had_repo && !served && !fetched && node.storage.repository(rid).is_ok();
+    Ok(HistoryResult { served, fetched, leaked, visible_canonical, visible_cached })
+}
+
+fn run_history(toks: &[&str]) -> Outcome {
+    let bad = || Outcome::new("bad-case").trivial();
+    if toks.len() != 3 {
+        return bad();
+    }
+    let init: Vec<char> = toks[0].chars().collect();
+    if init.len() != 1 || !['p', 'e'].contains(&init[0]) {
+        return bad();
+    }
+    let steps: Vec<char> = if toks[1] == "-" { vec![] } else { toks[1].chars().collect() };
+    if steps.len() > 4 || steps.iter().any(|c| !['p', 'n', 'e'].contains(c)) {
+        return bad();
+    }
+    let requester_is_eve = match toks[2] {
+        "e" => true,
+        "b" => false,
+        _ => return bad(),
+    };
+    let mut guard = WORLD.lock().unwrap();
+    if guard.is_none() {
+        match catch(world_init) {
+            Ok(w) => *guard = Some(w),
+            Err(e) => return Outcome::new(format!("inconclusive:world:{e}")).trivial(),
+        }
+    }
+    let w = guard.as_mut().unwrap();
+    let mut last = String::new();
+    for _try in 0..2 {
+        match catch(|| history_attempt(w, init[0], &steps, requester_is_eve)) {
+            Err(p) => last = format!("panic: {p}"),
+            Ok(Err(why)) => last = why,
+            Ok(Ok(r)) => {
+                let out = if r.served || r.fetched { "served" } else { "refused" };
+                let mut o = Outcome::new(out)
+                    .tag(format!("v:{out}"))
+                    .tag(format!("v:steps-{}", steps.len()))
+                    .tag(if r.visible_canonical { "v:visible-now" } else { "v:invisible-now" });
+                if r.visible_canonical != r.visible_cached {
+                    o = o.tag("v:cached-head-stale");
+                }
+                // the repository is seeded in every history: allowed = visible according to the CURRENT identity
+                if (r.served || r.fetched) && !r.visible_canonical {
+                    o = o.violation(
+                        "served-against-current-identity",
+                        format!(
+                            "responder ran upload-pack (served={}, requester fetch succeeded={}) although the canonical identity document \
+                             in its storage hides the repository from the requester (document at refs/rad/id says visible={})",
+                            r.served, r.fetched, r.visible_cached
+                        ),
+                    );
+                }
+                if r.leaked {
+                    o = o.violation("data-leaked", "repository present in the requester's storage after a refused fetch");
+                }
+                return o;
+            }
+        }
+    }
+    Outcome::new(format!("inconclusive:{}", last.replace(' ', "_"))).tag("v:inconclusive").trivial()
+}
+
 fn run_case(input: &str) -> Outcome {
     let toks: Vec<&str> = input.split(' ').collect();
     match toks.first().copied() {
         Some("h") => header::run_header(&toks[1..]),
         Some("w") => run_worker(&toks[1..]),
+        Some("v") => run_history(&toks[1..]),
         _ => Outcome::new("bad-case").trivial(),
     }
 }
@@ -313,6 +529,17 @@ fn main() {
             let o = run_case(&input);
             ctx.record(&input, o);
         }
+        // (c) histories: visibility changes that reach the serving node through a fetch
+        let histories: &[&str] = if ctx.quick() {
+            // (the corpus runs `v p n e`: made private by the other delegate's first identity operation)
+            &[]
+        } else {
+            &["v p e e", "v p en e", "v e n e", "v p n b", "v p ne e", "v e np e", "v p - e", "v e - e", "v p nen e"]
+        };
+        for input in histories {
+            let o = run_case(input);
+            ctx.record(input, o);
+        }
     }
     // Shut the nodes down and remove their directories.
     if let Some(w) = WORLD.lock().unwrap().take() {
@@ -323,6 +550,8 @@ fn main() {
          host/port/extra variants, non-UTF-8 and multi-byte text, length prefix exact/off-by-n/upper-case/+/boundary 4,1024,1025, truncated and \
          over-long streams, one-byte mutations), read in chunks of 1..4096 bytes; (b) real two-node fetch attempts over \
          policy {allow entry, block entry, none} x visibility {public, private with allow list subset of {requester, other}} x requester is delegate; \
+         (c) histories on three real nodes: visibility changes accepted by a second delegate on his node and fetched by the serving node \
+         (first identity operation of that delegate / later ones), then a stranger, allow-listed, removed or delegate peer fetches; \
          non-trivial = not a malformed case text and not inconclusive; distinct by input text",
         false,
     );
